@@ -41,21 +41,7 @@ def make_overlay():
 
 
 def load_known():
-    out = []
-    for fn in ("known_findings.d.jsonl", "known_findings.jsonl"):
-        p = os.path.join(C.VERIF, fn)
-        if not os.path.exists(p):
-            continue
-        for line in open(p):
-            line = line.strip()
-            if not line or line.startswith("#"):
-                continue
-            j = json.loads(line)
-            if j.get("property") == PROP and not j.get("fixed"):
-                out.append(j)
-        if out:
-            break
-    return out
+    return C.load_known(PROP)
 
 
 def hx(s):
@@ -289,6 +275,24 @@ def gen_cases(rng, base, tier):
                           evals=attempts(nm, (1, 3), "denied", 3)))
         cases.append(Case(cid("m"), "nested-override", "A", custom=True, override=[(nm, "new")], lookups=names3,
                           evals=attempts(nm, (1, 3), "overridden", 2)))
+    # 3b. subsets of nested names (deny and override together), each run twice
+    for _ in range(40 if tier == "quick" else 600):
+        dn, ov = [], []
+        for _ in range(1 + rng.below(3)):
+            nm = rng.choice(names3)
+            if nm not in dn:
+                dn.append(nm)
+        for _ in range(rng.below(3)):
+            nm = rng.choice(names3)
+            if nm not in [o[0] for o in ov]:
+                ov.append((nm, rng.choice(["new", "int"])))
+        i = cid("t")
+        c1 = Case(i, "nested-subset", "A", custom=True, deny=dn, override=ov, lookups=names3)
+        cases.append(c1)
+        c2 = Case(i + "r", "nested-subset-rerun", "A", custom=True, deny=list(reversed(dn)), override=list(reversed(ov)),
+                  lookups=names3)
+        c2.twin = i
+        cases.append(c2)
     # 4. sampled subsets (each run twice: the denylist and the overrides are Go maps)
     nsub = 500 if tier == "quick" else 6000
     for _ in range(nsub):
@@ -435,7 +439,7 @@ def canon_model(v, case, base):
 
 
 def is_known_class(names):
-    """Known finding C11#1: dotted names with two or more intermediate modules (>= 4 components)."""
+    """Class of the (repaired) finding C11#1: dotted names with two or more intermediate modules (>= 4 components)."""
     return any(len(n.split(".")) >= 4 for n in names)
 
 
@@ -626,7 +630,7 @@ def _body(res, tier, repo, obs, model, base, base_text, hash_equal, aliases, pro
         if why:
             v = {"case": c.describe(), "why": why, "impl": {k: g.get(k) for k in ("denied", "over", "lookups", "eval", "indep")}}
             if klass and any(k.get("id") == "C11#1" for k in known):
-                known_hits.append(v)
+                known_hits.append(v)        # only while an unrepaired entry C11#1 is listed in known_findings.jsonl
             else:
                 oracle_viol.append(v)
         # ---------------- CORRESPONDENCE: model prediction vs implementation
@@ -718,7 +722,7 @@ def _body(res, tier, repo, obs, model, base, base_text, hash_equal, aliases, pro
                        "search": "%d configurations, %d observations: no failing input" % (len(cases), evals)},
                       nofail=True, tag="proof")
         return
-    corr_new = [d for d in corr if not d.get("known_class")]
+    corr_new = corr      # every model/implementation difference counts (no finding is open for this property)
     if corr_new:
         res.violation({"property": PROP, "kind": "correspondence-broken", "stage": corr_new[0].get("stage"),
                        "first_difference": corr_new[0], "differences": corr_new[:20],
